@@ -20,7 +20,7 @@ from beartype import BeartypeConf   # noqa: E402
 from beartype.door import TypeHint, die_if_unbearable, is_bearable, is_subhint   # noqa: E402
 from beartype.roar import (BeartypeCallException, BeartypeDecorException, BeartypeException,
                            BeartypeHintViolation, BeartypeWarning)   # noqa: E402
-from beartype.vale import Is   # noqa: E402
+from beartype.vale import Is, IsAttr, IsEqual, IsInstance   # noqa: E402
 
 RULE = ('objects used as type hints: valid hints of grammar G mutated by wrong arity, unhashable members, bare special '
         'forms, arbitrary non-hint objects (numbers, containers, strings resolvable / unresolvable / malformed, '
@@ -51,6 +51,13 @@ class Hostile:
     def __bool__(self):
         if self.mode == 'bool': raise RuntimeError('hostile __bool__')
         return True
+
+
+class _NeverEq:
+    def __eq__(self, other): return False
+    def __ne__(self, other): return True
+    __hash__ = object.__hash__
+    def __repr__(self): return 'NeverEq()'
 
 
 def special_forms():
@@ -93,6 +100,11 @@ def special_forms():
         'TypeVar constraints (1, 2)': lambda: typing.TypeVar('C12', 'a b', 'c d'), 'InitVar[int]': lambda: __import__('dataclasses').InitVar[int],
         'types.UnionType int|str': lambda: int | str, 'types.GenericAlias(list, (1,))': lambda: types.GenericAlias(list, (1,)),
         'types.GenericAlias(int, (str,))': lambda: types.GenericAlias(int, (str,)),
+        # validators whose operand is not equal to itself (the operand travels with the generated code)
+        'Annotated[float, IsEqual[nan]]': lambda: typing.Annotated[float, IsEqual[float('nan')]],
+        'Annotated[object, IsEqual[NeverEq()]]': lambda: typing.Annotated[object, IsEqual[_NeverEq()]],
+        'Annotated[object, IsAttr["real", IsEqual[nan]]]': lambda: typing.Annotated[object, IsAttr['real', IsEqual[float('nan')]]],
+        'Annotated[object, IsInstance[int] & ~IsEqual[nan]]': lambda: typing.Annotated[object, IsInstance[int] & ~IsEqual[float('nan')]],
     }
     for n, b in builders.items():
         try:
@@ -166,6 +178,8 @@ WRAPPERS = [
     ('type[{}]', lambda h: type[h]), ('set[{}]', lambda h: set[h]), ('Iterable[{}]', lambda h: typing.Iterable[h]),
     ('Annotated[{}, Is[...]]', lambda h: typing.Annotated[h, Is[lambda x: True]]), ('List[{}]', lambda h: typing.List[h]),
     ('Mapping[str, {}]', lambda h: typing.Mapping[str, h]), ('type[{}] | None', lambda h: typing.Optional[type[h]]),
+    # the same form twice in one hint
+    ('tuple[{0}, {0}]', lambda h: tuple[h, h]), ('Union[dict[str, {0}], list[{0}]]', lambda h: typing.Union[dict[str, h], list[h]]),
 ]
 
 SUBJECTS = [1, 'a', None, [1], {'a': 1}, (1,), int, lambda: 0]
